@@ -155,7 +155,7 @@ fn run_workload(workload: &[Op], start_idx: Idx, backend: Backend, faults: bool,
     t
 }
 
-fn replay(run: &mut Run, ctx: &serde_json::Value) {
+fn replay(run: &mut Run, ctx: &serde_json::Value, property: &str) {
     let workload: Vec<Op> = serde_json::from_value(ctx["workload"].clone()).expect("workload");
     let start_idx: Idx = serde_json::from_value(ctx["start_idx"].clone()).expect("idx");
     let backend: Backend = serde_json::from_value(ctx["backend"].clone()).expect("backend");
@@ -176,22 +176,44 @@ fn replay(run: &mut Run, ctx: &serde_json::Value) {
     });
     run.add("evaluations", t.recoveries);
     for (sig, msg, c) in t.problems {
-        run.violation(Violation { signature: format!("C01|{sig}"), summary: msg, replay: c });
+        run.violation(Violation { signature: format!("{property}|crash|{sig}"), summary: msg, replay: c });
     }
 }
 
+fn alphabet_c04() -> Vec<Op> {
+    vec![
+        Op::Add(0),
+        Op::Add(2),        // contests name n0
+        Op::Update(2, 6),  // name := n0
+        Op::Remove(1),     // releases n0 / x / (10,1)
+        Op::Flush,
+        Op::Add(4),        // contests code x and tuple (10,1)
+        Op::Update(1, 13), // releases code x
+        Op::Update(2, 12), // codes := [q, x]
+        Op::Update(1, 0),  // releases the tuple
+        Op::Reopen,
+    ]
+}
+
 fn main() {
-    let mut run = Run::from_args("C01", "crash", "fault_enumeration");
+    let pre: Vec<String> = std::env::args().collect();
+    let property = pre
+        .iter()
+        .position(|a| a == "--property")
+        .and_then(|i| pre.get(i + 1).cloned())
+        .unwrap_or_else(|| "C01".to_string());
+    let mut run = Run::from_args(&property, "crash", "fault_enumeration");
     if let Some(file) = run.replay_file.clone() {
         let v: serde_json::Value = serde_json::from_slice(&std::fs::read(&file).expect("read")).expect("json");
-        replay(&mut run, &v["replay"]);
+        replay(&mut run, &v["replay"], &property);
         run.finish();
     }
-    let ops = alphabet();
+    let c04 = property == "C04";
+    let ops = if c04 { alphabet_c04() } else { alphabet() };
     let deadline = Instant::now() + Duration::from_secs_f64(run.budget_s);
     let threads = util::n_threads();
     let shared = Shared { seen: Mutex::new(HashSet::new()) };
-    let starts = [Idx::ALL];
+    let starts = [if c04 { Idx { age_opt: true, emb: false, ..Idx::ALL } } else { Idx::ALL }];
     let backends: Vec<Backend> = run.tier.pick(vec![Backend::Mem], vec![Backend::Mem, Backend::Meta, Backend::Enc]);
     let max_depth = run.tier.pick(3, 4);
     let mut completed: Vec<String> = Vec::new();
@@ -237,7 +259,7 @@ fn main() {
                     run.sample(s);
                 }
                 for (sig, msg, ctx) in t.problems {
-                    run.violation(Violation { signature: format!("C01|{sig}"), summary: format!("{msg} [{}]", ctx), replay: ctx });
+                    run.violation(Violation { signature: format!("{property}|crash|{sig}"), summary: format!("{msg} [{}]", ctx), replay: ctx });
                 }
             }
             if finished < total {
